@@ -449,7 +449,6 @@ func (p c11Peer) OnData(c *env.Conn, data []byte) error {
 	return nil
 }
 
-
 // c11LateAcks: a call was abandoned (context cancelled); afterwards the broker's late answer
 // arrives, even twice, and then the connection ends.  Done() must still be closed, the reader must
 // exit and a later call must still complete.
